@@ -31,7 +31,37 @@ func c11_4(c *core.Ctx, p *core.Prog) {
 		return
 	}
 	n := 0
-	for _, fn := range core.WithClosures(a.exportFn) {
+	// the export goroutine and the package helpers it calls (a reply loop moved into `respond(waiters, err)`)
+	var scope []*ssa.Function
+	seenF := map[*ssa.Function]bool{}
+	var add func(f *ssa.Function, depth int)
+	add = func(f *ssa.Function, depth int) {
+		if seenF[f] || depth > 2 {
+			return
+		}
+		seenF[f] = true
+		scope = append(scope, f)
+		core.EachInstr(f, func(i ssa.Instruction) {
+			if cl, ok := i.(*ssa.Call); ok {
+				if h := cl.Call.StaticCallee(); h != nil && core.FnPkgPath(h) == core.CBPPath && len(h.Blocks) > 0 && h != a.sendFn {
+					hasSel := false
+					core.EachInstr(h, func(j ssa.Instruction) {
+						switch j.(type) {
+						case *ssa.Select, *ssa.Send:
+							hasSel = true
+						}
+					})
+					if hasSel {
+						add(h, depth+1)
+					}
+				}
+			}
+		})
+	}
+	for _, f := range core.WithClosures(a.exportFn) {
+		add(f, 0)
+	}
+	for _, fn := range scope {
 		core.EachInstr(fn, func(i ssa.Instruction) {
 			switch x := i.(type) {
 			case *ssa.Send:
